@@ -162,7 +162,7 @@ pub fn check(c: &Case, obs: &mut Obs) -> Result<(), String> {
 
 fn run(ctx: &mut Ctx) {
     let cases = ctx.share(ctx.tier.pick(200_000, 3_000_000));
-    let p = ctx.tier.pick(TreeParams::quick(), TreeParams::thorough());
+    let p = ctx.tier.pick(TreeParams::quick(), TreeParams::thorough()).with_big(2);
     let strat = (arb_triple(p), vec(any::<u16>(), 1..5)).prop_map(|((a, b, c), sels)| Case { a, b, c, sels });
     run_strategy(ctx, "C04", "triples", cases, strat, check);
 }
